@@ -112,8 +112,14 @@ structure Op (P N : Type) where
 section Asm
 variable {P N : Type} [DecidableEq N] [LE N] [DecidableLE N] (close : P → P → Bool)
 
-/-- python `set` built by three `add`s and `discard(None)`, as a duplicate-free list -/
-def setOf (xs : List (Option N)) : List N := (xs.filterMap id).eraseDups
+/-- a duplicate-free list with the same members -/
+def dedupe : List N → List N
+  | [] => []
+  | a :: l => if a ∈ l then dedupe l else a :: dedupe l
+
+/-- python `set` built by three `add`s and `discard(None)`, as a duplicate-free list (the order in
+    which python iterates over the set does not matter: the list is sorted before use) -/
+def setOf (xs : List (Option N)) : List N := dedupe (xs.filterMap id)
 
 /-- `Operation.get_patches_at_corner(corner)` -/
 def patchesAtCorner (op : Op P N) (corner : Nat) : List N :=
